@@ -69,9 +69,9 @@ def _sanitize(spec, r, adversarial=False):
       elif a.get('act') == 'bogus':
         a['bogus_tag'] = r.choice([1, 9999, 77])
     ep.pop('ping', None)
-  for e in spec['events']:
-    if e['op'] == 'call':
-      e['pad'] = r.choice(PADS)
+  from harness import scenario as _sc
+  for e in _sc.call_events(spec):
+    e['pad'] = r.choice(PADS)
   spec['faults'] = [f for f in spec.get('faults', []) if f['op'] != 'connect' or f['what'] != 'hang']
   return spec
 
@@ -177,7 +177,7 @@ def run_impl(case):
   setup()
   tr = _S['scenario'].run(case['spec'])
   calls = {cid: {k: c.get(k) for k in ('issued', 'timeout', 'done', 'issue_error')} for cid, c in tr['calls'].items()}
-  args = {e['id']: e['id'] + '|' + e.get('pad', '') for e in case['spec']['events'] if e['op'] == 'call'}
+  args = {e['id']: e['id'] + '|' + e.get('pad', '') for e in _S['scenario'].call_events(case['spec'])}
   return {'calls': calls, 'args': args,
           'events': [e for e in tr['events'] if e[1] in ('resp', 'answered', 'complete')],
           'servers': {p: {'requests': s['requests'], 'replies': s['replies']} for p, s in tr['servers'].items()},
